@@ -132,6 +132,8 @@ def classify(prog, I, st, obj=None):
     h = g("handle")
     if status == fs(NS):
         ok = h == fs(prog.const("PROCESS_INVALID")) and all(g("pipe", s) == inv for s in STREAMS + ("exit",)) and childs_inv
+        if ok and g("deadline") != fs(prog.const("REPROC_INFINITE")):
+            return None, "status NOT_STARTED but a deadline is set"
         return ("NS", None) if ok else (None, "status NOT_STARTED but pid/pipes are not all invalid")
     if status == fs(IC):
         ok = all(g("pipe", s) == inv for s in STREAMS + ("exit",)) and childs_inv
